@@ -42,8 +42,12 @@ def st_case(draw) -> Dict[str, Any]:
     avail = [draw(st.booleans()) for _ in range(nv)]
     nsites = len(w["sites"])
     reqs = []
+    # vehicles and requests have separate id spaces: a third of the cases name the requests like the vehicles (v1, v2, v10 ...)
+    from hv.worlds import VEHICLE_IDS
+
+    like_vehicles = draw(st.sampled_from([False, False, True]))
     for j in range(draw(st.sampled_from([0, 1, 2, 3, 4, 5, 6, 7, 4, 5, 6, 7]))):
-        reqs.append({"id": f"q{j}", "o": draw(st.integers(0, nsites - 1)), "d": draw(st.integers(0, nsites - 1)),
+        reqs.append({"id": VEHICLE_IDS[j] if like_vehicles else f"q{j}", "o": draw(st.integers(0, nsites - 1)), "d": draw(st.integers(0, nsites - 1)),
                      "fleet": draw(st.sampled_from(w["fleet_ids"])) if w["fleet_ids"] else None,
                      "value": draw(st.sampled_from([1.0, 1.0, 5.0, 7.5])), "assigned": draw(st.sampled_from([False, False, False, False, True]))})
     return {"world": w, "acts": acts, "avail": avail, "reqs": reqs}
